@@ -63,7 +63,8 @@ fn sinks_ascending(g: &Sexp) -> bool {
 
 fn gen_file(r: &mut Rng) -> String {
     let keys = ["k", "w", "seen", "tag"];
-    let vals = ["1", "2", "\"x\"", "#true", "[1, 2]"];
+    // every kind of value, `#null` included: it is an ordinary value, and a different later value conflicts with it
+    let vals = ["1", "2", "\"x\"", "#true", "[1, 2]", "#null", "#null", "#false", "{1}"];
     let mut t = String::from("global ga\nglobal gb\n");
     t.push_str("(module) @m {\n  let _u = @m\n");
     for _ in 0..r.range(1, 5) {
